@@ -1,6 +1,6 @@
 (* C14 — Client-maintained referrers indexes lose no update under concurrency. *)
 From Oras Require Import Base.Prelude Model.Referrers Proofs.Referrers Model.Merge
-  Proofs.Merge Proofs.MergeLin Proofs.MergeThm Model.Delivery Proofs.Delivery.
+  Proofs.Merge Proofs.MergeLin Proofs.MergeThm Model.Delivery Proofs.Delivery Model.Live Proofs.Live.
 
 (* applyReferrerChanges (position map, tombstones, hint) = set semantics on the
    de-duplicated, non-empty old list; survivors keep their order, additions are
@@ -63,6 +63,19 @@ Theorem C14_single_main : forall sg r0 st0 tr s,
   (pool s = None -> (forall t, holding (pcs s t) = false) /\ items s = [] /\ pending s = []).
 Proof. exact single_main. Qed.
 Print Assumptions C14_single_main.
+
+(* "exactly the live manifests", concurrent: for EVERY interleaving of pushes and deletes of
+   referrers of one subject through one Repository (any number of callers, any batching, any
+   pre-existing index consistent with the live set, injected failures of the index
+   exchanges) in which operations on the SAME manifest do not overlap (Model/Live.v: the
+   manifest PUT precedes, the manifest DELETE follows the index update), at every instant:
+   a manifest that no operation is working on, and that no failed operation has touched, is
+   listed iff it is in the registry.  Without the no-overlap guard: C14_listing_is_live_refuted. *)
+Theorem C14_listing_is_live : forall sg r0 st0 live0 tr m,
+  tracks (r0, live0) -> lrun sg (linit r0 st0 live0) tr = Some m ->
+  forall k, ~ In k (map ent_key (l_inflight m)) -> ~ In k (l_taint m) -> consistent m k.
+Proof. exact listing_is_live. Qed.
+Print Assumptions C14_listing_is_live.
 
 (* KNOWN FINDING same-manifest-race: the clause "exactly the live manifests" does not hold
    when a push and a delete of the SAME manifest overlap: both calls return nil, the
@@ -291,3 +304,16 @@ Example tracks_ex : tracks (None, []) /\
   fold_left seq_op [Add dA; Add dB; Remove dA; Add dC] (None, []) = (Some [dB; dC], [3; 2]) /\
   forallb (fun k => Bool.eqb (memb (Some [dB; dC]) k) (negb (k =? 0) && existsb (N.eqb k) [3; 2])) [0; 1; 2; 3; 4] = true.
 Proof. split; [intro k; reflexivity|split; vm_compute; reflexivity]. Qed.
+
+(* two pushes and a delete on three different manifests, interleaved, one batch of two *)
+Example live_ex :
+  match lrun false (linit (Some [dA]) [] [1])
+    [LPut 0 dB; LIdx (EGet 1 (Remove dA)); LIdx (EAssign 1); LIdx (EGet 0 (Add dB)); LIdx (EAssign 0);
+     LPut 2 dC; LIdx (ERecvMain 1); LIdx (EPrepare 1 false); LIdx (ECommit 1); LIdx (EGet 2 (Add dC)); LIdx (EAssign 2);
+     LIdx (EPut 1 false); LIdx (EDel 1 false); LIdx (EComplete 1); LIdx (EDone 1); LIdx (EDone 0); LDel 1; LEnd 0;
+     LIdx (ERecvMain 2); LIdx (EPrepare 2 false); LIdx (ECommit 2); LIdx (EPut 2 false); LIdx (EDel 2 false);
+     LIdx (EComplete 2); LIdx (EDone 2); LEnd 2]%nat with
+  | Some m => l_inflight m = [] /\ l_taint m = [] /\ l_live m = [3; 2] /\ reg (l_s m) = Some [dB; dC]
+  | None => False
+  end.
+Proof. vm_compute. repeat split. Qed.
